@@ -367,7 +367,8 @@ PROPS["C12"] = dict(
 _EXCL_C09_OBS = ("two work functions of one key overlap", "did not finish while key 0")
 _EXCL_C10_OBS = ("outcome", "executed function was not supplied", "supplied under another key", "a key is still in the map", "model: map empty",
                  "no resolve-not-called outcome", "callers did not return", "goroutines of some calls did not finish",
-                 "delivered a result, but in the model", "once-only resolve body ran twice", "calls not finished in the model")
+                 "delivered a result, but in the model", "once-only resolve body ran twice", "calls not finished in the model",
+                 "no execution of its key began after it")
 def excl_monitor(prop, m, trace):
     """a rejected Exclusive event log is a failing input of a property only if the rejection is on something the property states"""
     text = m.get("expected", "") + " " + m.get("observed", "")
@@ -377,13 +378,15 @@ def excl_monitor(prop, m, trace):
         if any(k in text for k in _EXCL_C09_OBS):
             return "calls of another key were delayed by a busy key / work functions overlapped"
         return None
+    if "unanswered " in trace:
+        return "a call was made and returned, but no execution of its key began after it (the 'unanswered' line of the trace: harness-side lost-call monitor)"
     if any(k in text for k in _EXCL_C10_OBS):
         return "an outcome, the executed function, termination or the final map state differs from what the proved model allows"
     return None
 
 _EXCL_RULE = ("exclusive: 2-10 (thorough: up to 27) calls of all styles (Call, CallAfter, CallAsync, Start, StartAfter, CallWithOptions with ExclusiveWork / "
               "ExclusiveStart / ExclusiveWait) on 1-3 keys of one real Exclusive, each from its own goroutine; harness work functions resolve at once, block on a gate before or "
-              "after resolving (the resolve-to-return gap), resolve twice, resolve from three goroutines at once, resolve with an error result and keep running, or return without resolving; the controller releases gates in a PRNG interleaving and, with several keys, "
+              "after resolving (the resolve-to-return gap), resolve twice, resolve from three goroutines at once, resolve with an error result and keep running, or return without resolving; 16 forced handover schedules (8 of them with a Start as the call that arrives while the runner sits in its clear hook, and nothing else on that key afterwards: a lost Start shows as an 'unanswered' line of the harness-side lost-call monitor); the controller releases gates in a PRNG interleaving and, with several keys, "
               "keeps key 0's work blocked until every caller of the other keys has returned (a blocked key is reported as !stuck); the verif hook events (attach with count, "
               "escape, deliver, run, swap, work, resolve, returned, clear with count), attributed to calls through the creating goroutine, plus the functions' own events and the "
               "received outcomes must be accepted step by step by one instance of the Lean transition system per key (item identity, counts, who becomes the runner and when, "
